@@ -50,6 +50,8 @@ def gen_case(rng, i):
         klass = "well_conditioned"
     else:
         J, klass = M.gen(rng, max_m=7, max_n=8)
+    if name == "Krum" and rng.random() < 0.4:
+        J, klass = M.krum_hostile(rng, dname)
     desc = E.config(rng, name, J.shape[0], dname, with_pref=True if name == "Constant" else None)
     if desc is None:
         return None
@@ -105,6 +107,10 @@ def check_case(case, ctx):
         perms = [list(map(int, prng.permutation(m))) for _ in range(20)]
     eps = EPS[dname]
     t = 4 * eps * np.sqrt(m) if name in ("TrimmedMean",) else E.tau(name, dname, desc, J)
+    if name == "Krum" and s > 0:
+        # the same rows are selected whatever the order (score gap certified by the guard): error = rounding of an average of k rows
+        _, scale = E.krum_selection(desc, J)
+        t = 4 * (desc["k"] + 2) * eps
     for perm in perms:
         J2t = Jt[torch.tensor(perm, dtype=torch.long)] if perm else Jt
         d2 = E.permute_config({k: v for k, v in desc.items() if k != "_owned"}, perm)
@@ -138,6 +144,7 @@ def check_case(case, ctx):
         ctx.count("w_float32")
     distinct_rows = len({tuple(r) for r in J.tolist()}) == m
     ctx.evaluated(fingerprint(case), nontrivial=m >= 3 and (distinct_rows or any(desc.get(k) is not None for k in ("pref", "weights", "leak"))))
+    ctx.klass(f"class={case['class']}")
     ctx.sample({"J": np.round(J, 4).tolist(), "agg": case["agg"], "dtype": dname, "permutations": "all" if exh else 20, "class": case["class"]})
 
 
